@@ -257,6 +257,7 @@ func (tr *Trans) indexAddr(x *ssa.IndexAddr) {
 			return
 		}
 		tr.safety("index", x, and(le(intT(0), idx), lt(idx, bv.C[2])))
+		tr.g.noteIndex(idx)
 		if isObjType(u.Elem()) {
 			// element objects: derived ref from (array ref, index)
 			f := tr.e.declareFun("elemref", []Sort{SInt, SInt}, SInt)
@@ -772,7 +773,25 @@ func (tr *Trans) typeAssert(x *ssa.TypeAssert) {
 	var res Val
 	if isInterface(at) {
 		// interface-to-interface: succeeds iff non-nil and implements; abstract
-		okc := tr.e.fresh("implements", SBool)
+		// whether the dynamic type implements the asserted interface: an uninterpreted predicate of the dynamic
+		// type, with the facts the type checker knows for the concrete types named in the specs
+		iid := tr.g.typeID(at)
+		f := tr.e.declareFun(fmt.Sprintf("implements$%d", iid), []Sort{SInt}, SBool)
+		okc := Term{fmt.Sprintf("(%s %s)", f, tr.dynType(v.C[0]).S), SBool}
+		if !tr.g.frSeen[fmt.Sprintf("impl$%d", iid)] {
+			tr.g.frSeen[fmt.Sprintf("impl$%d", iid)] = true
+			if it, isI := under(at).(*types.Interface); isI {
+				for _, tn := range sortedKeys(tr.g.specs.TypeLits) {
+					if ct := tr.g.ld.lookupType(tn); ct != nil {
+						fact := Term{fmt.Sprintf("(%s %d)", f, tr.g.typeID(ct)), SBool}
+						if !types.Implements(ct, it) {
+							fact = not(fact)
+						}
+						tr.e.assertRaw(fact)
+					}
+				}
+			}
+		}
 		ok = and(not(eq(v.C[0], intT(0))), okc)
 		res = Val{T: at, C: []Term{v.C[0]}}
 	} else {
